@@ -106,8 +106,8 @@ func (self *printer) Printf(format string, args ...interface{}) {
 }
 
 func (self *printer) DumpComments() {
-	for _, fcomments := range self.comments {
-		for _, comment := range fcomments {
+	for _, fname := range sortedKeys(self.comments) {
+		for _, comment := range self.comments[fname] {
 			self.buf.WriteString(comment.Value)
 			self.buf.WriteString(NEWLINE)
 		}
